@@ -1313,7 +1313,8 @@ Value for timeout (%" PRIi64 ") is out of range.", t->timeout.d);
 			goto fatal;
 		}
 		/* otherwise */
-		timeo = t->timeout.d;
+		/* durations are in milliseconds, alarm(2) wants seconds */
+		timeo = t->timeout.d / 1000 + !!(t->timeout.d % 1000);
 		goto timeo;
 
 	case VTOD_TYP_DUE: {
